@@ -660,17 +660,7 @@ for _nm in ('encrypt', 'decrypt'):
 # ct_compare_digest: under the running interpreter tlslite.utils.constanttime.ct_compare_digest IS
 # hmac.compare_digest (C builtin); the pure-Python fallback in constanttime.py is not the definition in
 # force.  Trusted model: compare_digest(a, b) == (a == b) for byte strings (whole-string comparison).
-import hmac as _hmac
-from pyvc.builtins_model import model as _model
-
-
-@_model(_hmac.compare_digest)
-def _m_compare_digest(ex, args, kw, st, fr, node):
-    a, b = args
-    if not (isinstance(a, VSeq) and isinstance(b, VSeq) and a.elem == 'byte' and b.elem == 'byte'):
-        raise Unsupported('hmac.compare_digest(%r, %r)' % (a, b))
-    st.assume(smt.ext_witness_eq(a.t, b.t))        # unequal strings differ observably (length or some byte)
-    return [Outcome('normal', st, VBool(a.t == b.t))]
+# (the model itself lives in pyvc/builtins_model.py: m_compare_digest)
 
 
 # ---------------------------------------------------------------------------
@@ -1258,7 +1248,12 @@ class TWords(T):
 
 
 def _w32(v):
-    return z3.Extract(31, 0, v.t)
+    """low 32 bits of a 64-bit value; zero_extend(w) gives w back (keeps nested applications syntactically
+    identical to the RFC composition)"""
+    t = v.t
+    if z3.is_app_of(t, z3.Z3_OP_ZERO_EXT) and t.arg(0).size() == 32:
+        return t.arg(0)
+    return z3.Extract(31, 0, t)
 
 
 def rfc_qr(a, b, c, d):
@@ -1307,15 +1302,21 @@ def _dr_apply(c, ex, args, kwargs, st, fr, node):
     if not isinstance(argn, _ast.Name) or not isinstance(x, VList) or len(x.items) != 16:
         raise Unsupported('double_round on a non-local argument')
     new = []
+    cuts = []
     bvw = ex.bv
     x = VList([v if v.is_bv() else VInt(z3.BitVecVal(v.concrete(), bvw)) for v in x.items]) if bvw else x
     spec = rfc_double_round([_w32(v) for v in x.items]) if ex.bv else None
     if spec is None:
         raise Unsupported('double_round contract is bit-vector only')
     for i in range(16):
-        # the post-state as a term (no fresh constant): zero_extend(RFC word); z3 simplifies the
-        # extract-of-zero-extend of the next round away, so ten applications nest exactly like the RFC text
-        new.append(VInt(z3.simplify(z3.ZeroExt(ex.bv - 32, spec[i]))))
+        # cut point: a fresh 32-bit constant defined as the RFC word; the new state word is its zero extension
+        fw = z3.BitVec(fresh_name('dr_%d' % i), 32)
+        cuts.append((fw, spec[i]))
+        new.append(VInt(z3.ZeroExt(ex.bv - 32, fw)))
+    # the definitions fw == RFC word are NOT assumed in the path condition (safety obligations are then shown
+    # for arbitrary words: stronger, and cheap); they are recorded for the caller's ensures, which is stated
+    # under these definitions (see _block_staged)
+    st.ghost['$dr_cuts'] = list(st.ghost.get('$dr_cuts') or []) + [cuts]
     outs = ex.assign(_ast.Name(id=argn.id, ctx=_ast.Store()), VList(new), st, fr)
     return [Outcome('normal', o.st, VNone()) for o in outs]
 
@@ -1386,9 +1387,9 @@ def _dr_staged(x0, final):
             w[k] = alldefs[-8 + 2 * pos + 1].arg(0)
             link[k] = v[k] == ze(w[k])
     # the real body computed exactly the code-shaped terms (structural identity of the ASTs)
-    for k in range(16):
-        if not final[k].t.eq(code[k]):
-            raise Unsupported('double_round: executor term for word %d is not the transcription of chacha.py' % k)
+    if not all(final[k].t.eq(code[k]) for k in range(16)):
+        # the body no longer computes the transcribed terms: no staging, the solver gets the plain statement
+        return VBool(z3.And([final[k].t == ze(spec[k]) for k in range(16)]))
     # chaining: under the definitions of the cut constants the body's terms are the last v, the RFC terms the last w
     conj.append(z3.Implies(z3.And(alldefs + link), z3.And([final[k].t == ze(spec[k]) for k in range(16)])))
     # ... and the plain statement (the cut constants are fresh and defined, so this conjunct alone is equivalent
@@ -1414,13 +1415,124 @@ def rfc_block(key, counter, nonce):
     return [a + b for a, b in zip(s, init)]
 
 
+def _block_staged(ns):
+    """chacha_block == RFC 8439 2.3, chained over the ten double-round cut points (sequential conjuncts)"""
+    key = [_w32(v) for v in ns.key.items]
+    ctr = _w32(ns.counter)
+    nonce = [_w32(v) for v in ns.nonce.items]
+    init = [z3.BitVecVal(c, 32) for c in (0x61707865, 0x3320646e, 0x79622d32, 0x6b206574)] + key + [ctr] + nonce
+    cuts = ns.ghost('$dr_cuts') or []
+    if len(cuts) != 10:
+        raise Unsupported('chacha_block: expected 10 applications of double_round, saw %d' % len(cuts))
+    s = list(init)
+    for _ in range(10):
+        s = rfc_double_round(s)
+    want = [a + b for a, b in zip(s, init)]
+    assert all(w.eq(r) for w, r in zip(want, rfc_block(key, ctr, nonce)))        # the RFC term of rfc_block
+    res = ns.result.items
+    phi = z3.And([z3.And(z3.Extract(31, 0, res[k].t) == want[k], z3.Extract(BVW - 1, 32, res[k].t) == 0)
+                  for k in range(16)])
+    # The cut constants introduced by the ten applications of the double_round contract are fresh and defined
+    # (fw == RFC inner_block word over the previous state): `defs ==> phi` is equivalent to phi with every
+    # constant replaced by its definition, last stage first (let-elimination); the result is a closed formula over
+    # the parameters only.
+    for cut in reversed(cuts):
+        phi = z3.substitute(phi, *[(fw, t) for (fw, t) in cut])
+    return S.And(S.len_(ns.result) == 16, VBool(phi))
+
+
 contract(U + 'chacha.py:ChaCha.chacha_block',
          params={'key': TWords(8), 'counter': TWords(1), 'nonce': TWords(3), 'rounds': T.const(20)},
          setup=lambda ex, st, ns: st.env.__setitem__('counter', st.env['counter'].items[0]),
          mode='bv', width=BVW, result=TWords(16),
-         ensures=lambda ns: S.And(S.len_(ns.result) == 16,
-                                  _words_eq(ns.result, rfc_block([_w32(v) for v in ns.key.items], _w32(ns.counter),
-                                                                 [_w32(v) for v in ns.nonce.items]))),
+         ensures=_block_staged,
          prop=PROP,
          doc='chacha20_block of RFC 8439 2.3 for 20 rounds: state layout constants|key|counter|nonce, ten double '
              'rounds, final word-wise addition of the initial state mod 2^32')
+
+
+# ---------------------------------------------------------------------------
+# Poly1305 (RFC 8439 2.5), mathematical integers.
+#   r = clamp(le(key[0:16])), s = le(key[16:32]);  acc = 0;  per 16-byte block (last one may be shorter):
+#   acc = ((acc + le(block || 01)) * r) mod (2^130 - 5);  tag = low 128 bits of (acc + s), little-endian
+import tlslite.utils.poly1305 as POLY
+
+LeS = S.uf('LeS', [Seq, I], I, seq_ext=[0])         # little-endian value of the suffix data[i:]
+PolyAcc = S.uf('PolyAcc', [I, I, Seq, I], I, seq_ext=[2])   # r, initial acc, data, number of blocks absorbed
+P1305 = (1 << 130) - 5
+CLAMP = 0x0ffffffc0ffffffc0ffffffc0fffffff
+
+
+def le_val(d):
+    return VInt(LeS(d.t, z3.IntVal(0)))
+
+
+def _poly_block(d, i):
+    """z3 term: block i of d (16 bytes, the last one possibly shorter) followed by the byte 01"""
+    n = slen(d)
+    hi = z3.If(16 * i + 16 <= n, 16 * i + 16, n)
+    return smt.s_concat(smt.s_slice(d, 16 * i, hi), smt.s_single(z3.IntVal(1)))
+
+
+def _poly_axioms():
+    d = z3.Const('pd', Seq)
+    i, r, a = z3.Ints('pi pr pa')
+    return [
+        FA([d, i], z3.Implies(i >= slen(d), LeS(d, i) == 0), [LeS(d, i)]),
+        FA([d, i], z3.Implies(z3.And(0 <= i, i < slen(d)), LeS(d, i) == sat(d, i) + 256 * LeS(d, i + 1)),
+           [_mp(LeS(d, i), MkU(i))]),
+        FA([d, i], z3.Implies(z3.And(isb(d), 0 <= i), LeS(d, i) >= 0), [LeS(d, i)]),
+        FA([r, a, d], PolyAcc(r, a, d, z3.IntVal(0)) == a, [PolyAcc(r, a, d, z3.IntVal(0))]),
+        FA([r, a, d, i], z3.Implies(i == 0, PolyAcc(r, a, d, i) == a), [PolyAcc(r, a, d, i)]),
+        FA([r, a, d, i], z3.Implies(i >= 0, PolyAcc(r, a, d, i + 1) ==
+                                    (r * (PolyAcc(r, a, d, i) + LeS(_poly_block(d, i), z3.IntVal(0)))) % P1305),
+           [_mp(PolyAcc(r, a, d, i), MkU(i))]),
+    ]
+
+
+smt.AXIOMS.extend(_poly_axioms())
+
+contract(U + 'poly1305.py:Poly1305.le_bytes_to_num',
+         params={'data': T.bytes()}, result=T.int(),
+         ensures=lambda ns: S.And(ns.result == le_val(ns.data), ns.result >= 0),
+         loops={1: LoopSpec(lambda ns: S.And(ns.ret == VInt(LeS(ns.data.t, ns.idx.t + 1)), ns.ret >= 0,
+                                             ns.idx >= -1, ns.idx < S.len_(ns.data), unfold(ns.idx)),
+                            fingerprint='len(data) - 1, -1, -1')},
+         prop=PROP, doc='little-endian value of a byte string: sum data[i] * 256^i')
+
+
+def le16(x):
+    """16 bytes, little-endian, of x mod 2^128"""
+    x = _lift(x)
+    return S.cat([VInt((x.t / (1 << (8 * i))) % 256) for i in range(16)])
+
+
+contract(U + 'poly1305.py:Poly1305.num_to_16_le_bytes',
+         params={'num': T.int(0)}, result=T.bytes(),
+         ensures=lambda ns: S.And(ns.result == le16(ns.num), S.len_(ns.result) == 16, S.is_bytes(ns.result)),
+         prop=PROP, doc='the low 128 bits of num as 16 little-endian bytes')
+
+POLY_OBJ = T.obj(POLY.Poly1305, acc=T.int(0), r=T.int(0), s=T.int(0))
+
+
+def poly_acc(r, a, d, i):
+    return VInt(PolyAcc(_lift(r).t, _lift(a).t, d.t, _lift(i).t))
+
+
+def _nblocks16(n):
+    return VInt((_lift(n).t + 15) / 16)
+
+
+contract(U + 'poly1305.py:Poly1305.create_tag',
+         params={'self': POLY_OBJ, 'data': T.bytes()}, result=T.bytes(), modifies=[('self', 'acc')],
+         ensures=lambda ns: (lambda r, a0, s_: S.And(
+             ns.result == le16(poly_acc(r, a0, ns.data, _nblocks16(S.len_(ns.data))) + s_),
+             S.len_(ns.result) == 16, S.is_bytes(ns.result)))(
+                 ns.old.f(ns.self, 'r'), ns.old.f(ns.self, 'acc'), ns.old.f(ns.self, 's')),
+         loops={1: LoopSpec(lambda ns: S.And(ns.idx >= 0, unfold(ns.idx), ns.f(ns.self, 'acc') >= 0,
+                                             ns.f(ns.self, 'acc') == poly_acc(ns.f(ns.self, 'r'), ns.old.f(ns.self, 'acc'),
+                                                                              ns.data, ns.idx)),
+                            modifies_fields=[('self', 'acc')], fingerprint='divceil(len(data), 16)')},
+         prop=PROP,
+         doc='tag = low 128 bits (little-endian) of acc_n + s, acc_{i+1} = ((acc_i + le(block_i || 01)) * r) mod 2^130-5 over '
+             'the 16-byte blocks of data (the last one may be shorter)')
